@@ -109,6 +109,12 @@ components `cf i` and the validity `vf i` -/
 def Cells (n : List Nat) (f : CF) (cf : List Nat → List GQ) (vf : List Nat → Bool) : Prop :=
   CFwf f ∧ f.mesh.n = n ∧ ∀ i, inRange n i = true → cellOf f.data i f.nvdim = cf i ∧ f.valid.get i = vf i
 
+theorem Cells.congr {n f cf vf cf' vf'} (h : Cells n f cf vf) (hc : ∀ i, cf i = cf' i) (hv : ∀ i, vf i = vf' i) :
+    Cells n f cf' vf' := by
+  refine ⟨h.1, h.2.1, fun i hi => ?_⟩
+  rw [← hc i, ← hv i]
+  exact h.2.2 i hi
+
 theorem Cells.opd {n f cf vf} (h : Cells n f cf vf) (i : List Nat) (hi : inRange n i = true) :
     opdCell f.data i = cf i := by
   obtain ⟨hw, hn, hc⟩ := h
@@ -131,7 +137,7 @@ theorem Cells.length {n f cf vf} (h : Cells n f cf vf) (i : List Nat) (hi : inRa
 def ValCells (n : List Nat) (v : Val) (cv : List Nat → List GQ) (vv : List Nat → Bool) : Prop :=
   match v with
   | .fld f => Cells n f cv vv
-  | .raw od => cv = rawCell od ∧ vv = fun _ => true
+  | .raw od => (∀ i, cv i = rawCell od i) ∧ (∀ i, vv i = true)
 
 theorem opdCell_scalarArr (z : GQ) (i : List Nat) : opdCell (scalarArr z) i = [z] := by
   simp [opdCell, scalarArr]
